@@ -77,6 +77,7 @@ def compare(view_a, ep_a, view_b, ep_b, rel, stats):
             xa, xb = ta[var], tb[var]
             sc = max(sa.get((p, var), 0.0), sb.get((p, var), 0.0))
             m = min(len(xa), len(xb), n)
+            root = var == 'contact stress'
             for k in range(m):
                 if first is not None and k >= first['k']:
                     break
@@ -84,6 +85,14 @@ def compare(view_a, ep_a, view_b, ep_b, rel, stats):
                 if a is None or b is None:
                     if a is not b:
                         first = {'k': k, 'what': var, 'pos': p, 'a': a, 'b': b}
+                    continue
+                if root:
+                    # sigma ~ sqrt(force): near zero force a rounding
+                    # residual eps shows up as sqrt(eps); compare squares
+                    if abs(a * a - b * b) > rel * sc * sc + 1e-300:
+                        first = {'k': k, 'what': var, 'pos': p, 'a': a,
+                                 'b': b, 'scale': sc}
+                        break
                     continue
                 if abs(a - b) > rel * sc + 1e-300:
                     first = {'k': k, 'what': var, 'pos': p, 'a': a, 'b': b,
@@ -122,6 +131,12 @@ def amplifies_rounding(scn, execu, rel):
     w[0] = w[0] * (1 + 1e-13)
     if b.get('load'):
         b['load']['noise'] = 1e-13
+    # ... and on the dominant terms of the dynamics (a load that is small
+    # against the motor torque would otherwise under-excite the experiment)
+    for e in b['elements']:
+        if e['kind'] == 'DCMotor':
+            e['Tmax'] = [e['Tmax'][0] * (1 + 1e-13), e['Tmax'][1]]
+            e['w0'] = [e['w0'][0] * (1 - 1e-13), e['w0'][1]]
     HA, HB = execu.execute(a), execu.execute(b)
     va, vb = View(a, HA), View(b, HB)
     if not (va.ok and vb.ok):
